@@ -49,5 +49,15 @@ add("C10", "exploration",
     "The active rule set is modelled by the harness from preset tables + enable/disable lists; attribute route only for options with a property on OptionsDict.",
     "property-based testing (Hypothesis); oracle: reachability table (reference model) + differential relations (rule on/off, option on/off, three option routes)",
     "DESIGN.md section 4, C10")
+add("C11", "exploration",
+    "Generated operation histories (shrunk as one value) on a bare Ruler and on the MarkdownIt facade, executed against an explicit reference model (ordered rule records, first-match lookup): reported sets are compared with the model after every step, the applied function lists of every chain at every observation, raising calls may leave either documented state; on the facade the parse of the live instance must equal that of a fresh instance carrying exactly the reported rules.",
+    "Histories are data interpreted by a model executor (state-machine testing with replayable histories); the fallback rules paragraph/text stay enabled on the facade because a parse without them does not terminate (outside the supported configurations).",
+    "stateful property-based testing (Hypothesis-generated histories vs. reference model); oracle: reference model + applied==reported differential",
+    "DESIGN.md section 4, C11")
+add("C12", "exploration",
+    "Generated histories over up to three live instances (construction from names, caller-owned preset dicts and shared option mappings; calls with env omitted/fresh/shared; rule, option, render-rule and reset_rules operations); every probe compares the live instance with a fresh instance rebuilt from that instance's own configuration recipe (tokens, HTML, env; env omitted vs {}), and module presets / caller-owned mappings with their snapshots.",
+    "Render rules come from a small registry of pure functions; recipes contain configuration operations only.",
+    "stateful property-based testing (Hypothesis-generated multi-instance histories); oracle: configuration-recipe replay on a fresh instance (differential) + snapshot invariants",
+    "DESIGN.md section 4, C12")
 ALL = ["C%02d" % i for i in range(1, 21)]
 NA = [{"property_id": p, "reason": "check under construction in this round; not claimed until its oracle is built and shown quiet on the unchanged tree"} for p in ALL if p not in CHECKS]
